@@ -2,7 +2,8 @@
 
 E1_TECH = "static: LLVM -O2 dead-branch elimination of symbolic obligations (compile-time assertion over optimised IR)"
 E1_NOTE = ("Trusted: LLVM 14 mid-end soundness, libstdc++, correctness of the obligation text in /verif/obligations. "
-           "Fixed-rank container kinds only (std::array, utl::array, tuples); dynamic/bounded containers are not covered. "
+           "Fixed-rank container kinds (std::array, utl::array, tuples) and, where stated, bounded run-time-length utl::static_vector with the length fixed by ASSUME "
+           "(this exercises the library's run-time-loop branches); heap containers (std::vector) are not covered. "
            "A behaviour-preserving rewrite LLVM can no longer normalise would be reported (small-step obligations keep this unlikely).")
 E1_RULE = ("E1: one obligation per (clause, container kind, rank, axis/case); non-trivial = the obligation point is reachable in the optimised "
            "declare-mode IR; distinct by (driver function, obligation id, integer parameters)")
@@ -29,7 +30,7 @@ PROPS = {
     claim="Proof that the source multi-index produced by transpose/moveaxis/swapaxes/tile/repeat(non-repeated axes)/roll indexers lies inside the source shape for every in-shape destination index, and that static_vector never holds more than its capacity (inductive invariant over every mutator); buffer-position bounds for run-time shapes (non-linear) and slice-based views are not decided.",
     note=E1_NOTE,
     technique=E1_TECH,
-    e1=[dict(tu="c03_rearrange.cpp"), dict(tu="c04_select.cpp"), dict(tu="c19_utl.cpp")],
+    e1=[dict(tu="c03_rearrange.cpp"), dict(tu="c03b_dynamic.cpp"), dict(tu="c04_select.cpp"), dict(tu="c19_utl.cpp")],
     rule=E1_RULE,
     explanation="in-shape obligations are stated through the view's own indexer (indexing_t / decorator_t on the path); capacity obligations are an inductive class invariant (assume on entry, prove on exit).",
     not_decided="offset < buffer length for run-time shapes (non-linear); slice/flip/pad/concatenate/sliding_window views; dynamic buffers; SIMD accesses are under C12",
@@ -37,10 +38,10 @@ PROPS = {
  ),
  "C03": dict(
     level="proof",
-    claim="Proof of NumPy's shape law, source-index law and element law for transpose (default and compile-time axes), moveaxis and swapaxes (compile-time axes incl. negative) at ranks 1..4 for every extent and index; reshape/flatten/squeeze/flip/expand_dims element laws are not decided.",
+    claim="Proof of NumPy's shape law, source-index law and element law for transpose (default and compile-time axes), moveaxis and swapaxes (compile-time axes incl. negative) at ranks 1..4 for every extent and index, and the same laws for run-time axes (transpose with a run-time permutation, moveaxis with run-time ints) and for arrays whose shape is a bounded run-time-length static_vector (the library's run-time-loop branches); reshape/flatten/squeeze/flip/expand_dims element laws are not decided.",
     note=E1_NOTE,
     technique=E1_TECH,
-    e1=[dict(tu="c03_rearrange.cpp")],
+    e1=[dict(tu="c03_rearrange.cpp"), dict(tu="c03b_dynamic.cpp")],
     rule=E1_RULE,
     explanation="expected shape and source index are written from NumPy's definitions in the driver; the element law is equality of the bits loaded through the view and through the source at the expected index.",
     not_decided="reshape incl. -1, flatten, expand_dims, atleast_nd element maps (div/mod round trip), squeeze, flip, run-time axes, dynamic shapes",
@@ -51,7 +52,7 @@ PROPS = {
     claim="Proof of shape law, source-index law and element law for tile (reps of equal and greater length), repeat along an axis (scalar repeats, incl. negative axis) and roll along an axis for EVERY shift magnitude and sign, ranks 1..3, every extent and index; the remaining operations of the property are not decided.",
     note=E1_NOTE,
     technique=E1_TECH,
-    e1=[dict(tu="c04_select.cpp")],
+    e1=[dict(tu="c04_select.cpp"), dict(tu="c03b_dynamic.cpp")],
     rule=E1_RULE,
     explanation="src = dst mod shape (tile), src_axis = dst_axis / r (repeat), src_axis = (dst_axis - shift) mod extent (roll), written from the NumPy definitions.",
     not_decided="take, compress, concatenate/stack family, split, sliding_window, diagonal, tril/triu, where, generators, pad, resize, expand, per-element repeats, repeat/roll without axis",
@@ -73,7 +74,7 @@ PROPS = {
     claim="Proof of the value/Nothing boundary of broadcast_shape (all rank pairs up to 3x3) and of moveaxis with in-range versus out-of-range compile-time axes; plus, over ~6000 instantiated functions of the maybe-lifting layer (index, view, eval, kernel helper, isequal/isclose), every dereference of a maybe-typed expression is dominated by the true edge of a truth test on that expression, and every integer division in index/ and view/ has a validated or role-justified divisor (the reshape divisor is tied to the zero-extent validation). The value/Nothing boundary of the remaining operations is not decided.",
     note=E1_NOTE + " " + E2_NOTE,
     technique=E1_TECH + " + CFG typestate/dominance rules (test-before-dereference, zero-guarded division) on instantiations",
-    e1=[dict(tu="c06_broadcast.cpp"), dict(tu="c03_rearrange.cpp")],
+    e1=[dict(tu="c06_broadcast.cpp"), dict(tu="c03_rearrange.cpp"), dict(tu="c03b_dynamic.cpp")],
     e2=[dict(rule="R-MAYBE-DIV")],
     rule=E1_RULE + "; E2: one instance per dereference of a maybe-typed expression / per integer division site in the instantiated lifting functions (drivers/maybe_inst.cpp)",
     explanation="value exactly when NumPy accepts, Nothing exactly when NumPy raises, for the listed operations; an empty optional is never dereferenced = every dereference is dominated by a truth test of the same expression (typestate rule on the CFG); no division by an unvalidated user-derived divisor.",
